@@ -6,3 +6,13 @@
 #ifndef VP_SIGLOG_CAP
 #define VP_SIGLOG_CAP 6
 #endif
+/* String-model hygiene: the shared models return Qt's static shared_null (an object of a different type than the model blocks) from
+   mid()/left()/right() and from the DOM getters of a null element.  When such a result is merged with a model block under a symbolic
+   condition, every later character access becomes a byte_extract over whole blocks (measured 10x).  C16 replaces these few functions
+   by versions that return an EMPTY MODEL BLOCK instead (same observable value; QString::isNull() is not used by the code under test). */
+#define _ZNK7QString3midEii qtcore_QString_mid
+#define _ZNK7QString4leftEi qtcore_QString_left
+#define _ZNK7QString5rightEi qtcore_QString_right
+#define _ZNK11QDomElement7tagNameEv qtdom_tagName
+#define _ZNK8QDomNode12namespaceURIEv qtdom_namespaceURI
+#define _ZNK11QDomElement4textEv qtdom_text
